@@ -105,6 +105,8 @@ def shape_of(t, env=None):
         def lit(x):
             return (sp.Integer(len(x)),) + lit(x[0]) if isinstance(x, (list, tuple)) and x else ()
         return lit(v)
+    if op in ("clone", "contiguous", "detach", "requires_grad_", "float", "double", "half"):
+        return so(a[0])
     if op in ("empty_like", "zeros_like", "ones_like", "randn_like", "rand_like", "full_like"):
         return so(a[0])
     if op == "new_zeros":
